@@ -7,3 +7,4 @@ from . import concurrent  # noqa: F401
 from . import storage  # noqa: F401
 from . import entry  # noqa: F401
 from . import clone  # noqa: F401
+from . import listeners  # noqa: F401
